@@ -184,6 +184,14 @@ func interopLegA(r *core.Run, proto *spec.Proto, n int, opt spec.GenOpt) {
 		var b []byte
 		var err error
 		site := pd.Site()
+		if (i+int(r.Cfg.Index))%4 == 2 {
+			// the sender logs what it is about to send: rendering is an observer
+			if p := r.Call(site+".String", func() { _ = pdu.String() }); p != nil {
+				r.Fail("C01", "panic", site, "String/"+p.Kind, "String() of a well-formed PDU panicked: %s at %s", p.Value, p.Frame)
+				return
+			}
+			r.Probe("logged_before_encode")
+		}
 		if p := r.Call(site+".IEncode", func() { b, err = pdu.IEncode() }); p != nil {
 			r.Fail("C01", "panic", site, "IEncode/"+p.Kind, "IEncode panicked: %s at %s", p.Value, p.Frame)
 			return
@@ -253,6 +261,14 @@ func interopLegA(r *core.Run, proto *spec.Proto, n int, opt spec.GenOpt) {
 		if err != nil {
 			r.Fail("C01", "decode-error", site, "own-encoding", "IDecode refused the encoder's own output: %v", err)
 			continue
+		}
+		if (i+int(r.Cfg.Index))%4 == 3 {
+			// the receiver logs the PDU before it reads its fields
+			if p := r.Call(site+".String", func() { _ = fresh.String() }); p != nil {
+				r.Fail("C01", "panic", site, "String/"+p.Kind, "String() of a decoded PDU panicked: %s at %s", p.Value, p.Frame)
+				continue
+			}
+			r.Probe("logged_after_decode")
 		}
 		for _, path := range goDiff(s.expected, fresh) {
 			cls := classOfField(s.pd, s.msg, path)
@@ -480,6 +496,14 @@ func interopLegB(r *core.Run, proto *spec.Proto, n int, opt spec.GenOpt) {
 		if err != nil {
 			r.Fail("C02", "decode", site, "refused", "IDecode refused a specification-conformant image (%s, %d octets): %v", s.pd.Section, len(s.b), err)
 			continue
+		}
+		if (i+int(r.Cfg.Index))%4 == 1 {
+			// a decoded PDU that is logged before its fields are read still carries the values of the image
+			if p := r.Call(site+".String", func() { _ = fresh.String() }); p != nil {
+				r.Fail("C02", "panic", site, "String/"+p.Kind, "String() of a PDU decoded from a conformant image panicked: %s at %s", p.Value, p.Frame)
+				continue
+			}
+			r.Probe("logged_after_decode")
 		}
 		got := FromGo(fresh, s.pd, true)
 		got.CmdID = s.m.CmdID // compared below through the raw header
@@ -718,7 +742,13 @@ func interopMisfit(r *core.Run, proto *spec.Proto, opt spec.GenOpt) {
 	}
 	f := slots[c.Intn(len(slots))]
 	extra := 1 + c.Size(40, 1)
-	long := c.Blob(f.Width+extra, "print")
+	// what does not fit need not be text: octets of one class (all 0xff, only UTF-8 continuation octets, one octet
+	// repeated) must be refused just as politely
+	alphabet := "print"
+	if r.Cfg.Index%3 == 0 {
+		alphabet = "nonul"
+	}
+	long := c.Blob(f.Width+extra, alphabet)
 	site := pd.Site()
 	if f.Kind == spec.KRep {
 		l := m.F[f.Name].L
